@@ -157,6 +157,28 @@ def execute_c11(scenario, params, streams=None):
                 )
             scenario["alts"] = alts
         base_digest = core.digest(base)
+        if "repeat_check" not in scenario:
+            scenario["repeat_check"] = bool(streams is not None and streams.get("sched.repeat").random() < params.get("repeat_p", 0.0))
+        if scenario["repeat_check"]:
+            # schedule element: the same rewrite executed twice in ONE fresh
+            # interpreter under the same sigma (state a first rewrite leaves
+            # behind in the process - ABI singletons, caches - must not
+            # change the second); done in a throw-away interpreter so that
+            # the answer is a function of the scenario alone
+            hp = dict(params)
+            hp.update({"dump_only": True, "use_sigma": {k: sigma[k] for k in ("uuid_seed", "salt", "hashseed")}, "perm_seed": None, "want_dump": True, "repeat_p": 0.0})
+            task = {"op": "replay", "engine": "rwsim", "prop": "C11", "scenario": {k: v for k, v in scenario.items() if k != "repeat_check"}, "params": hp}
+            r1, r2 = helpers.call_fresh(sigma["hashseed"] % core.HASHSEED_CLASSES, [task, task])
+            stats["sched.repeated_in_fresh_interpreter"] += 1
+            stats["executions"] += 2
+            if r1.get("verdict") == core.Verdict.OK and r2.get("verdict") == core.Verdict.OK and r1["dump_digest"] != r2["dump_digest"]:
+                diff = canon.first_diff(_without_addr(r1["dump"]), _without_addr(r2["dump"])) or canon.first_diff(r1["dump"], r2["dump"])
+                raise core.Violation(
+                    "C11",
+                    "dump-diff",
+                    {"what": "the same rewrite gave another result when repeated in the same interpreter", "first_difference": diff},
+                    {"part": canon.part_of(diff), "repeat": True},
+                )
         # interleaving measure for C11: the distinct schedules executed
         meta["interleavings"] = [core.digest(sigma)] + [core.digest(a) for a in scenario["alts"]]
         mine = helpers.my_hashseed()
@@ -279,6 +301,47 @@ def _alignment_state(world):
     return out
 
 
+def _check_patch_alignment(world, model, mt, sess, si, obs):
+    """'.align N' inside a patch: the block that starts with the next
+    instruction of the patch is recorded with that alignment requirement
+    (whether it is also honoured is the alignment-lost check's business).
+    Independent of the alignment table: derived from the patch text."""
+    if world.desc["isa"] == "arm64":
+        return  # (.align is a power of two there; the generator does not use it)
+    addr = mt.tok_addr()
+    at = world.module.aux_data.get("alignment")
+    table = {b.address: a for b, a in at.data.items() if getattr(b, "address", None) is not None and getattr(b, "size", 0)} if at is not None else {}
+    starts = {b.address for b in world.module.code_blocks if b.size}
+    for c in sess.captures:
+        if c["cap"] is None:
+            continue
+        op = sess.desc["ops"][c["op"]]
+        lines = (op.get("patch") or {}).get("lines") or []
+        if op["k"] not in ("ins", "rep") or any("raw" in l and not l["raw"].startswith((".align", ".cfi", ".set")) for l in lines):
+            continue
+        nbytes = 0
+        want = None
+        for l in lines:
+            if "raw" in l and l["raw"].startswith(".align"):
+                want = int(l["raw"].split()[1])
+                continue
+            if "label" in l or "raw" in l:
+                continue
+            if want is not None:
+                tid = f"s{sess.index}o{c['op']}i{c['inv']}.{nbytes}"
+                a = addr.get(tid)
+                if a is not None and want > 1:
+                    if a not in starts or table.get(a, 1) < want:
+                        raise core.Violation(
+                            "C10",
+                            "alignment-lost",
+                            {"what": "the alignment requirement a patch states with .align is not recorded for the block that follows it", "alignment": want, "recorded": table.get(a), "block_starts_there": a in starts, "session": si},
+                            {"new_block": True, "recorded": False, "layout_reordered": bool(obs.reordered)},
+                        )
+                want = None
+            nbytes += 1
+
+
 def _paddable_new_block(world, model, mt, sess, block_uuid):
     """Does the aligned block a patch added start one of the temporary
     per-block intervals (other than the first of its partition)?  Only there
@@ -382,6 +445,7 @@ def execute_c10(scenario, params, streams=None):
                     if was is None:
                         sig["paddable"] = _paddable_new_block(world, model, mt, sess, bu)
                     raise core.Violation("C10", "alignment-lost", {"alignment": a, "new_block": was is None, "zero_sized": size == 0, "session": si}, sig)
+            _check_patch_alignment(world, model, mt, sess, si, obs)
             stats["aligned_blocks"] += sum(1 for v in post.values() if v[0] > 1)
             stats["pads"] += sum(len(p) for p in mt.pads.values())
             if obs.pad_notes:
@@ -903,6 +967,16 @@ def execute_generic(prop, scenario, params, streams=None):
             stats["pads"] += sum(len(p) for p in mt.pads.values())
             check = getattr(oracles, "check_" + prop.lower())
             check(mt, sess)
+            if prop == "C01" and getattr(sess, "c07_expected", None) is not None:
+                # every scope registration was applied exactly once where
+                # the scope says (C01: 'each patch's bytes appear exactly once
+                # at the requested position')
+                try:
+                    oracles.check_c07(mt, sess)
+                except core.Violation as v:
+                    cls = {"not-invoked": "patch-missing", "invoked-twice": "patch-duplicated"}.get(v.vclass)
+                    if cls and not v.sig.get("layout_reordered"):
+                        raise core.Violation("C01", cls, v.witness, {"via": "scope", **{k: v.sig[k] for k in v.sig if k in ("scope", "pos", "fpos", "layout_reordered")}})
             for dv in mt.deferred:
                 stats["probe.units_reordered_by_layout"] += 1
                 if dv.prop == prop:
@@ -991,6 +1065,16 @@ def _patch_str(p):
 
 # --------------------------------------------------------------------------
 # shrinking
+
+
+def stabilize(prop, scenario):
+    """A scenario whose violation did not reproduce: for C11 ask for the
+    execution that carries its own history (repeat in a fresh interpreter)."""
+    if prop != "C11" or scenario.get("kind") == "asm" or scenario.get("repeat_check"):
+        return None
+    c = copy.deepcopy(scenario)
+    c["repeat_check"] = True
+    return c
 
 
 def shrink_candidates(prop, scenario):
